@@ -54,7 +54,7 @@ class RFile(object):
 # --------------------------------------------------------------------------
 # the shared file universe U (DESIGN section 3)
 
-KINDS = ('A', 'M', 'B', 'X', 'Zx', 'S', 'Ch')
+KINDS = ('A', 'M', 'B', 'X', 'Zx', 'S', 'Ch', 'M0')
 _KIDX = {k: i + 1 for i, k in enumerate(KINDS)}
 XCOORD = {1: [10.], 2: [10., 20.], 3: [10., 20., 40.], 4: [10., 20., 40., 50.]}
 
@@ -103,6 +103,13 @@ def ufile(recipe):
                                 attrs=OrderedDict([('units', 'm')]))
         elif k == 'S':
             f.vars['S'] = RVar((), _ramp('S', (), 'i'), attrs=OrderedDict([('units', '1')]))
+        elif k == 'M0':
+            # masked int variable whose fill value is exactly zero
+            sh = (lens['z'], lens['x'])
+            d = _ramp('M0', sh, 'i')
+            m = np.zeros(sh, bool)
+            m.flat[0] = True
+            f.vars['M0'] = RVar(('z', 'x'), d, m, OrderedDict([('units', 'n')]), fill=0)
         elif k == 'Ch':
             n = lens['x']
             f.vars['Ch'] = RVar(('x',), np.array(list('abcd'[:n]), dtype='S1'),
